@@ -59,7 +59,10 @@ def parseModSrc (ts : List String) : Option ModSrc :=
     let (sg, r12) := opt 'S' 1 r11
     let (tg, r13) := opt 'T' 1 r12
     let (qg, r14) := opt 'Q' 2 r13
-    let (dg, _) := opt 'D' 2 r14
+    let (dg, r15) := opt 'D' 2 r14
+    -- `K1 <rev>`: the revision the text declares, when the source is served under another one (the `rev` token)
+    let (kg, _) := opt 'K' 1 r15
+    let declared : Option Bytes := (kg.head?).map fun x => dash (x.getD 0 "-")
     let faults : List (Stage × Nat) := xg.filterMap fun x =>
       let stage : Option Stage := match x.getD 0 "" with
         | "syntax" => some .syntax | "late" => some .late | "impl" => some .impl
@@ -67,7 +70,7 @@ def parseModSrc (ts : List String) : Option ModSrc :=
       match stage, (x.getD 1 "").toNat? with
       | some sg, some n => some (sg, n)
       | _, _ => none
-    pure { name := bs name, rev := dash rev, ns := bs ns, hasData := hd == "1", hasGrp := hg == "1",
+    pure { name := bs name, rev := declared.getD (dash rev), regRev := declared.map (fun _ => dash rev), ns := bs ns, hasData := hd == "1", hasGrp := hg == "1",
            feats := featSrcs fg, subs := subs,
            imports := ig.map (fun x => (bs (x.getD 0 ""), dash (x.getD 1 "-"))),
            augments := ag.map (fun x => bs (x.getD 0 "")), deviations := vg.map (fun x => bs (x.getD 0 "")),
@@ -156,7 +159,7 @@ def rcOf (r : Except Nat Unit) : Nat := match r with | .ok _ => 0 | .error e => 
 def step (st : St) (ts : List String) : Option St :=
   match ts with
   | "P" :: name :: rev :: f :: _ => do
-    let src ← st.ctx.repo.find? (fun m => m.name == bs name && m.rev == dash rev)
+    let src ← st.ctx.repo.find? (fun m => m.name == bs name && m.repoRev == dash rev)
     let (r, c) := run st.ctx (.parse src (parseFeatArg f))
     pure (snapshot { st with ctx := c } (rcOf r))
   | "L" :: name :: rev :: f :: _ =>
@@ -201,7 +204,7 @@ def history (spec : String) : String :=
         match parseModSrc rest with
         | some src =>
           -- a later source of the same name and revision replaces the earlier one (the file was edited)
-          some { st with ctx := { st.ctx with repo := (st.ctx.repo.filter fun m => !(m.name == src.name && m.rev == src.rev)) ++ [src] } }
+          some { st with ctx := { st.ctx with repo := (st.ctx.repo.filter fun m => !(m.name == src.name && m.repoRev == src.repoRev)) ++ [src] } }
         | none => none
       | "S" :: _ => some st
       | _ => step st ts) (some { ctx := { cfg := Cfg.code, cfg2 := Cfg2.code } })
@@ -225,7 +228,7 @@ def ylhistory (spec : String) : String :=
       | "M" :: rest =>
         match parseModSrc rest with
         | some src =>
-          some { st with ctx := { st.ctx with repo := (st.ctx.repo.filter fun m => !(m.name == src.name && m.rev == src.rev)) ++ [src] } }
+          some { st with ctx := { st.ctx with repo := (st.ctx.repo.filter fun m => !(m.name == src.name && m.repoRev == src.repoRev)) ++ [src] } }
         | none => none
       | "S" :: _ => some st
       | _ => step st ts) (some { ctx := { cfg := Cfg.code, cfg2 := Cfg2.code } })
